@@ -169,8 +169,9 @@ def handleEffPar (j : Json) : Option Json := do
   let pvals ← getRatMat j "pvals"
   let pvA := pvals.toArray
   let pv : Nat → List Rat := fun m => pvA.getD m []
+  let dynA := ((getBoolList j "dyn").getD []).toArray
   pure (Json.mkObj [
-    ("eff", matJ ((List.range E).map (effPar E npar (fun _ => false) pv))),
+    ("eff", matJ ((List.range E).map (effPar E npar (fun q => dynA.getD q false) pv))),
     ("legacy", matJ ((List.range E).map (effParLegacy E npar pv)))])
 
 def handle (j : Json) : Option Json := do
